@@ -271,6 +271,7 @@ def scenarios(tier):
     return [Scn('like1', build(1), 5 if q else 7, 7, 'one LIKE cell; all subsets within the deviation bound'),
             Scn('like2', build(2), 4 if q else 5, 5, 'LIKE of LIKE'),
             Scn('like3', build(3), 3 if q else 4, 4, 'chain of three'),
+            Scn('like6', build(6), 2 if q else 3, 3, 'chain of six LIKE cells'),
             Scn('like-lattice', build_lattice, 4 if q else None, None,
                 'LIKE n BUT copies of a lattice cell (FILL=u with per-cell --lattice ranges, or a FILL array)')]
 
